@@ -305,6 +305,21 @@ Definition in_window_b (l : lpc) : bool := match l with RIter _ _ => true | _ =>
 Definition race_a (c : conf) : bool := in_window_a (loop c) && existsb (at_pc PAppend) (pubs c).
 Definition race_b (c : conf) : bool := in_window_b (loop c) && existsb (at_pc PAppend) (pubs c).
 
+(* F-C07d: a packet appended after reconnect() took its marking snapshot and before clear() *)
+Definition in_window_d (l : lpc) : bool := match l with RIter _ _ | RClear => true | _ => false end.
+Definition race_d (c : conf) : bool := in_window_d (loop c) && existsb (at_pc PAppend) (pubs c).
+
+Definition pkt_eqb (a b : pkt) : bool :=
+  match a, b with
+  | Connect x, Connect y => x =? y
+  | Publish o i m, Publish o' i' m' => Nat.eqb o o' && Nat.eqb i i' && (m =? m')
+  | _, _ => false
+  end.
+
+(* nothing is lost silently: every packet a publisher appended is written, in hand, queued or marked lost *)
+Definition conserved (c : conf) : bool :=
+  forallb (fun p => forallb (fun x => existsb (pkt_eqb x) (flight c ++ marked c)) (sentp p)) (pubs c).
+
 (* no configuration visited by the schedule satisfies [bad] *)
 Fixpoint safe_run (bad : conf -> bool) (s : list tid) (c : conf) : bool :=
   negb (bad c) &&
